@@ -9,7 +9,7 @@ ops (see harness/cmd/deadline/main.go):
         obs: buf sb=<SendBy> n=<count> sz=<DataSize> root=<0|1>   |   late reason=<send reason>
   tick <w>                            ext: taken = <ids in the order they reached the transmission>
         obs: at=<now> sent=<id:reason:spans,…> left=<buffered ids>
-  eject <w> <bytes>                   ext: imp <id> = <CacheImpact>…, order = <ids>
+  eject <w> <bytes>                   ext: imp <id> = <CacheImpact>…, age <id> <k> = <size> <lo> <hi>…, order = <ids>
         obs: sent=… left=…
   alloc <delta>                       ext: heap, maxalloc, workers, share <w>, imp <w> <id>, order <w>
         obs: none | evict shares=<b,…> w=<k> sent=… left=… …
@@ -55,6 +55,22 @@ def extImps (exts : List (List String)) (pre : List String) : AList Nat Nat :=
         | _, _ => none
       | _ => none
     else none
+
+/-- all `age <pre…> <id> <k> = <size> <lo> <hi>` lines, grouped per trace in span order -/
+def extAges (exts : List (List String)) (pre : List String) : AList Nat (List (Nat × Nat × Nat)) :=
+  let rows : List (Nat × Nat × Nat × Nat) := exts.filterMap fun l =>
+    if l.take (pre.length + 1) == "age" :: pre then
+      match l.drop (pre.length + 1) with
+      | [id, _k, "=", sz, lo, hi] => match id.toNat?, sz.toNat?, lo.toNat?, hi.toNat? with
+        | some id, some sz, some lo, some hi => some (id, sz, lo, hi)
+        | _, _, _, _ => none
+      | _ => none
+    else none
+  rows.foldl (fun (acc : AList Nat (List (Nat × Nat × Nat))) r =>
+    let (id, e) := r
+    match AList.get acc id with
+    | some sp => AList.put acc id (sp ++ [e])
+    | none => AList.put acc id [e]) []
 
 def sentStr (l : List Sent) : String :=
   if l.isEmpty then "-" else ",".intercalate (l.map fun (id, r, n) => s!"{id}:{r.name}:{n}")
@@ -103,7 +119,7 @@ def oStep (o : OSt) (op : List String) (exts : List (List String)) : OSt × Opti
     | some w, some bytes, some order =>
       match o.ws[w]? with
       | some s =>
-        let (s', out) := step s (.eject bytes (extImps exts []) order)
+        let (s', out) := step s (.eject bytes (extImps exts []) order (extAges exts []))
         ({ ws := setAt o.ws w s' }, some (fmtSent "" out))
       | none => (o, some "bad-worker")
     | _, _, _ => (o, some "bad-op")
@@ -117,7 +133,7 @@ def oStep (o : OSt) (op : List String) (exts : List (List String)) : OSt × Opti
         let (ws', parts) := (o.ws.zipIdx).foldl (fun (acc : List St × List String) (sw : St × Nat) =>
           let (s, w) := sw
           let order := (extIds exts ["order", toString w]).getD []
-          let (s', out) := step s (.eject share (extImps exts [toString w]) order)
+          let (s', out) := step s (.eject share (extImps exts [toString w]) order (extAges exts [toString w]))
           (acc.1 ++ [s'], acc.2 ++ [s!"w={w} " ++ fmtSent "" out])) ([], [])
         let shares := natList (o.ws.map fun _ => share)
         ({ ws := ws' }, some (s!"evict shares={shares} " ++ " ".intercalate parts))
@@ -133,6 +149,8 @@ structure MTr where
   w : Nat
   arr : Arr
   size : Nat
+  /-- the estimate (bounds) the trace carries since an ejection last computed it; a new span resets it -/
+  est : Option (Nat × Nat) := none
 
 structure MSt where
   cfg : Cfg
@@ -212,7 +230,8 @@ def nonIncreasing : List Nat → Bool
   | a :: b :: t => b ≤ a && nonIncreasing (b :: t)
   | _ => true
 
-def monEject (m : MSt) (w bytes : Nat) (imp : AList Nat Nat) (sentS leftS : String) : MSt × List Fail :=
+def monEject (m : MSt) (w bytes : Nat) (imp : AList Nat Nat) (ages : AList Nat (List (Nat × Nat × Nat)))
+    (sentS leftS : String) : MSt × List Fail :=
   let sent := parseSent sentS
   let left := parseNatList leftS
   let mine := workerIds m w
@@ -247,7 +266,41 @@ def monEject (m : MSt) (w bytes : Nat) (imp : AList Nat Nat) (sentS leftS : Stri
   let expectLeft := isort rest
   let f7 := if left != expectLeft then
     [mfail "C07" "C07:buffer-after-eject" s!"buffer holds {natList left}, expected {natList expectLeft}"] else []
-  (removeSent m ids, f1 ++ f2 ++ f3 ++ f4 ++ f5 ++ f6 ++ f7)
+  -- the estimate as types/event.go defines it, from the observed span sizes and ages:
+  -- Σ size · (cacheImpactFactor · age / traceTimeout + 1), bounds for the age at the instant of the call
+  let tt := m.cfg.impactTimeout
+  let fresh (id : Nat) : Option (Nat × Nat) := (AList.get ages id).map fun sp =>
+    (traceImpact tt (lows sp), traceImpact tt (highs sp))
+  let estOf (id : Nat) : Option (Nat × Nat) :=
+    match AList.get m.buf id with
+    | some t => (match t.est with | some e => some e | none => fresh id)
+    | none => none
+  let sorted := 2 ≤ mine.length          -- sort.Slice compares (and memoises) only then
+  let f8 := if !sorted then [] else (mine.filterMap fun id =>
+    match estOf id with
+    | some (lo, hi) =>
+      let v := impOf imp id
+      if v < lo ∨ hi < v then
+        some (mfail "C07" "C07:impact-estimate-differs-from-definition"
+          s!"trace {id}: the code's impact {v}, size x (factor*age/timeout + 1) summed over its spans gives {lo}..{hi}")
+      else none
+    | none => none)
+  let before (xs : List Nat) (y : Nat) : List Fail := xs.filterMap fun x =>
+    match estOf x, estOf y with
+    | some (_, hx), some (ly, _) =>
+      if hx < ly then some (mfail "C07" "C07:eject-order-not-by-age-weighted-impact"
+        s!"trace {x} (age-weighted impact at most {hx}) ejected ahead of trace {y} (at least {ly})") else none
+    | _, _ => none
+  let f9 := if !sorted then [] else
+    ((List.range known.length).flatMap fun j => before (known.take j) (known.getD j 0)) ++
+    (rest.flatMap fun y => before known y)
+  let m1 := removeSent m ids
+  let m2 := if !sorted then m1 else { m1 with buf := m1.buf.map fun p =>
+    if p.2.w == w then
+      let v := impOf imp p.1
+      (p.1, { p.2 with est := if v = 0 then none else some (v, v) })
+    else p }
+  (m2, f1 ++ f2 ++ f3 ++ f4 ++ f5 ++ f6 ++ f7 ++ f8 ++ (f9.take 1))
 
 /-- splits the tokens of an `evict` observation into per-worker (w, sent, left) -/
 def parseEvict : List String → List (Nat × String × String)
@@ -294,7 +347,7 @@ def dMon (m : MSt) (op : List String) (exts : List (List String)) (obs : Option 
     match w.toNat?, bytes.toNat? with
     | some w, some bytes =>
       let toks := o.splitOn " "
-      monEject m w bytes (extImps exts []) ((kv toks "sent").getD "-") ((kv toks "left").getD "-")
+      monEject m w bytes (extImps exts []) (extAges exts []) ((kv toks "sent").getD "-") ((kv toks "left").getD "-")
     | _, _ => (m, [])
   | ["alloc", _], some o =>
     match extNat exts ["heap"], extNat exts ["maxalloc"], extNat exts ["workers"] with
@@ -312,7 +365,7 @@ def dMon (m : MSt) (op : List String) (exts : List (List String)) (obs : Option 
         let (m', fs) := (parseEvict (toks.drop 2)).foldl (fun (acc : MSt × List Fail) (e : Nat × String × String) =>
           let (w, s, l) := e
           let bytes := (extNat exts ["share", toString w]).getD want
-          let (m2, f) := monEject acc.1 w bytes (extImps exts [toString w]) s l
+          let (m2, f) := monEject acc.1 w bytes (extImps exts [toString w]) (extAges exts [toString w]) s l
           (m2, acc.2 ++ f)) (m, [])
         (m', f0 ++ f1 ++ fs)
     | _, _, _ => (m, [])
